@@ -413,6 +413,10 @@ def rule_R3(ctx):
             for c in T.calls_in(a[0]):
                 if (c[1].endswith("::index") or c[1].endswith("::get")) and len(c[2]) == 2:
                     sel.append(T.strip(c[2][1]))
+            # `senders.get(i)` matched as Some reads element i (terms.field renders it as an index read)
+            for x in T.walk(a[0]):
+                if x[0] == "index" and T.strip(x[2]) not in sel:
+                    sel.append(T.strip(x[2]))
         ctx.check(bool(idxs) and bool(sel) and all(i == sel[0] for i in idxs), "R3", fam + ":dispatch:per-worker-index",
                   "worker_dropped is indexed by the selected worker id", "worker_dropped is indexed by %s but the packet was sent to worker %s" % (
                       [T.pp(i)[:40] for i in idxs], [T.pp(i)[:40] for i in sel]), ctx.loc(b))
